@@ -101,6 +101,7 @@ pub fn run(ctx: &Ctx) -> ! {
     cfg2.gen = qgen::GenCfg { allow: Some(vec!["Fco", "Po", "Ae", "C"]), ..Default::default() };
     let mut uni2 = Universe::sverif();
     uni2.datasets.retain(|d| matches!(d.name.as_str(), "diamond" | "fan3" | "chain4" | "twocycle"));
+    cfg2.stream_share = 1.0;
     let stats2 = corpus::drive(ctx, &uni2, &cfg2, &per_query, &per_case, &|_, _| {});
     let mut c = cov();
     c.insert("evaluations".into(), json!(values_checked.load(Ordering::Relaxed)));
